@@ -797,10 +797,23 @@ fn top_key(j: &J) -> String {
 }
 
 impl Ctx {
+    /// At most three failures per class reach the (bounded) report, so that a frequent known
+    /// finding can never crowd out a different failure.
+    fn room(&mut self, class: &str) -> bool {
+        let k = format!("failures:{class}");
+        self.rep.count(&k);
+        self.rep.histogram.get(&k).cloned().unwrap_or(0) <= 3
+    }
     fn oracle_fail(&mut self, class: &str, input: J, expected: String, observed: String) {
+        if !self.room(class) {
+            return;
+        }
         self.rep.fail(Failure { kind: "impl-vs-oracle".into(), class: class.into(), input, expected, observed });
     }
     fn model_fail(&mut self, class: &str, input: J, expected: String, observed: String) {
+        if !self.room(class) {
+            return;
+        }
         self.rep.fail(Failure { kind: "impl-vs-model".into(), class: class.into(), input, expected, observed });
     }
 
